@@ -31,6 +31,8 @@ pub struct Cont {
 }
 
 pub type VarElem = List<u8, typenum::U8>;
+/// an element that is itself a multi-leaf milhouse list: hashing it forks with rayon
+pub type NestElem = List<u64, typenum::U16>;
 
 pub trait Kind:
     Value + Send + Sync + Default + Serialize + DeserializeOwned + std::fmt::Debug + 'static
@@ -964,6 +966,7 @@ fn make_runner(kind: &str, n: &str, m: &str) -> Option<Box<dyn Runner>> {
         "h256" => small_sizes!(Hash256, n, m),
         "cont" => small_sizes!(Cont, n, m),
         "var" => small_sizes!(VarElem, n, m),
+        "nest" => sizes!(NestElem, n, m, ["4" => U4, "8" => U8, "9" => U9, "33" => U33, "1024" => U1024]),
         _ => None,
     };
     if small.is_some() {
